@@ -235,9 +235,9 @@ def run_unit_verus(u, repo):
         site = None
         prim_line = None
         for s in spans:
-            for ln in range(s["line_start"], s["line_end"] + 1):
-                if ln in label_by_line:
-                    hit.add(label_by_line[ln])
+            # a clause sits on one line; body spans ("at the end of the function body") cover many
+            if s["line_start"] in label_by_line and s["line_end"] - s["line_start"] <= 1:
+                hit.add(label_by_line[s["line_start"]])
             if s.get("is_primary"):
                 prim_line = s["line_start"]
         for s in spans:
